@@ -1060,6 +1060,38 @@ def _check_subs(run, repo, world):
     # unregister: removes exactly the entry keyed by this handle from the
     # registry of the _callback object the handle was created with
     unr = astq.propagate(unr)      # `reg = self._callback._callbacks`
+    # the handle may ask the registry to forget it: a private method of
+    # _callback called as self._callback.M(self) is read in place (its self
+    # is the handle's registry, its parameter the handle)
+    helper = None
+    ub = nodoc(unr)
+    if len(ub) == 1 and isinstance(ub[0], ast.Expr) and isinstance(
+            ub[0].value, ast.Call) and isinstance(
+                ub[0].value.func, ast.Attribute) and unparse(
+                    ub[0].value.func.value) == "self._callback" and \
+            ub[0].value.func.attr in cb.methods and len(
+                ub[0].value.args) == 1 and not ub[0].value.keywords and \
+            unparse(ub[0].value.args[0]) == "self":
+        hm = cb.methods[ub[0].value.func.attr][1]
+        hps = [a.arg for a in hm.args.args]
+        if len(hps) == 2 and not any(isinstance(x, ast.Name) and x.id in (
+                "self__reg",) for x in ast.walk(hm)):
+            from ..inline import acopy as _ac
+            helper = ub[0].value.func.attr
+            body_ = [_ac(s_) for s_ in nodoc(hm)]
+
+            class _R(ast.NodeTransformer):
+                def visit_Name(self, n):
+                    if n.id == hps[0]:
+                        return ast.copy_location(ast.Attribute(
+                            ast.Name("self", ast.Load()), "_callback",
+                            ast.Load()), n)
+                    if n.id == hps[1]:
+                        return ast.copy_location(ast.Name("self", n.ctx), n)
+                    return n
+            unr = _ac(unr)
+            unr.body = [_R().visit(s_) for s_ in body_]
+            ast.fix_missing_locations(unr)
     urem = _removals(unr, "_callbacks")
     utouch = _touches(unr, "_callbacks")
     run.ob("R-SUBS", HID + "._callback._callback_handle.unregister",
@@ -1106,7 +1138,9 @@ def _check_subs(run, repo, world):
                 writers.add("%s.%s" % (c.name, name))
     run.ob("R-SUBS", HID + "#_callbacks-writers",
            writers <= {"_callback.__init__", "_callback.register",
-                       "_callback_handle.unregister"},
+                       "_callback_handle.unregister"} | (
+               {"_callback." + helper} if helper and _only_called_from(
+                   world, HID, helper, "unregister") else set()),
            "_callbacks is modified outside its owner: %s" % sorted(writers),
            where(mod, cb.node))
     smod = repo.mod(SER)
@@ -1478,3 +1512,17 @@ def _check_feed(run, repo, world):
            "frame field (%s[%d] or %s[3]); the test reads %s" % (
                msgvar, frame_off + 3, rawvar, [unparse(t) for t in tests]),
            where(mod, bfn))
+
+
+def _only_called_from(world, modname, meth, caller):
+    """every call `<x>.<meth>(...)` in the module's methods sits in a method
+    named `caller`"""
+    n = 0
+    for (c, name, kind, f2) in methods_of(world, modname):
+        for x in ast.walk(f2):
+            if isinstance(x, ast.Call) and isinstance(
+                    x.func, ast.Attribute) and x.func.attr == meth:
+                n += 1
+                if name != caller:
+                    return False
+    return n > 0
